@@ -10,7 +10,8 @@ for p in props:
     pid = p["id"]
     path = os.path.join(HERE, "props", pid.lower() + ".py")
     meta = None
-    if os.path.exists(path):
+    ready = set(open(os.path.join(HERE, "READY")).read().split())
+    if os.path.exists(path) and pid in ready:
         mod = importlib.import_module("props." + pid.lower())
         meta = getattr(mod, "META", None)
     if meta is None or meta.get("not_applicable"):
